@@ -101,6 +101,31 @@ pub fn widen_list(a: &Args) {
     Report::new("gen").finish(&a.str("out", "/dev/null"));
 }
 
+/// For (class, on-wire property name) pairs: what the database says the reader should make of
+/// them (independent walk). Used to interpret Studio-written files decoded by refbin.py.
+pub fn wiremap_main(a: &Args) {
+    let db = dbwalk::db();
+    let input: Vec<(String, String)> = serde_json::from_str(&std::fs::read_to_string(a.str("in", "/dev/stdin")).unwrap()).unwrap();
+    let mut out = vec![];
+    for (class, wire) in input {
+        let rec = match dbwalk::resolve(db, &class, &wire) {
+            None => json!({"class": class, "wire": wire, "status": "unknown"}),
+            Some(r) => {
+                let declared = dbwalk::vtype(r.canonical).map(|t| format!("{:?}", t));
+                let status = match r.ser {
+                    dbwalk::Ser::As(_) => "ok",
+                    dbwalk::Ser::No => "noserialize",
+                    dbwalk::Ser::Migrate(_) => "migrate",
+                    dbwalk::Ser::Unknown => "unknown-kind",
+                };
+                json!({"class": class, "wire": wire, "status": status, "back": r.canonical.name, "declared": declared})
+            }
+        };
+        out.push(rec);
+    }
+    std::fs::write(a.str("out", "/dev/stdout"), serde_json::to_vec(&out).unwrap()).unwrap();
+}
+
 /// Read {"id","prop","fmt","bytes_hex"|"text","expected","mode"} lines, decode with the real
 /// reader, compare exactly (no extra properties allowed).
 pub fn readcmp_main(a: &Args) {
@@ -182,7 +207,25 @@ pub fn readcmp_main(a: &Args) {
             rep.count("outcome.ok_but_expected_err");
             continue;
         }
-        let dump = canon::with_nan_class(nan, || canon::dump_decoded(&dom));
+        let mut dump = canon::with_nan_class(nan, || canon::dump_decoded(&dom));
+        if rec["subset"].as_bool() == Some(true) {
+            // compare only the properties the expectation lists (the rest is outside what the producer could interpret)
+            fn strip(e: &J, a: &mut J) {
+                if let (Some(ep), Some(ap)) = (e["props"].as_object(), a["props"].as_object_mut()) {
+                    ap.retain(|k, _| ep.contains_key(k));
+                }
+                if let (Some(ec), Some(ac)) = (e["children"].as_array(), a["children"].as_array_mut()) {
+                    for (x, y) in ec.iter().zip(ac.iter_mut()) {
+                        strip(x, y);
+                    }
+                }
+            }
+            if let (Some(er), Some(ar)) = (rec["expected"]["roots"].as_array(), dump["roots"].as_array_mut()) {
+                for (x, y) in er.iter().zip(ar.iter_mut()) {
+                    strip(x, y);
+                }
+            }
+        }
         let exp = Expect { dump: rec["expected"].clone(), carried: Default::default() };
         let ninst = rec["expected"].to_string().matches("\"class\"").count();
         if ninst >= 2 {
